@@ -4,6 +4,7 @@ package main
 
 import (
 	"fmt"
+	"regexp"
 	"go/types"
 	"strings"
 
@@ -18,6 +19,7 @@ func (p *Prog) shortPkg(path string) string {
 func GenFunc(prog *Prog, fn *ssa.Function, fc *FuncContract) *VC {
 	curDefs = map[string]string{}
 	enc := NewEncoder(prog, fc.Arith)
+	enc.absDiv = fc.Options["divabs"] == "yes"
 	enc.basePrelude()
 	vc := &VC{enc: enc, prog: prog, fn: fn, fc: fc, clos: map[string]*closureVal{}, memDeclared: map[string]bool{}, recSpecs: map[string]*recSpecInfo{}, nameCount: map[string]int{}}
 	vc.qname = prog.shortPkg(fn.Pkg.Pkg.Path()) + "." + fc.Name
@@ -164,11 +166,11 @@ func primarySymbol(decl string) string {
 func (vc *VC) Query(o *Obligation, wantModel bool) string {
 	var sb strings.Builder
 	var body strings.Builder
-	for _, l := range vc.lines[:o.lineIdx] {
+	goal := fmt.Sprintf("(assert (not (=> %s %s)))\n", o.Path, o.Goal)
+	for _, l := range pruneMemLines(vc.lines[:o.lineIdx], goal) {
 		body.WriteString(l)
 		body.WriteString("\n")
 	}
-	goal := fmt.Sprintf("(assert (not (=> %s %s)))\n", o.Path, o.Goal)
 	rest := body.String() + goal
 	sb.WriteString("(set-option :produce-models true)\n(set-logic ALL)\n")
 	// prelude: include an entry only if the query (transitively) mentions its symbol
@@ -217,15 +219,26 @@ func (vc *VC) Query(o *Obligation, wantModel bool) string {
 			}
 		}
 	}
+	litsDone := false
 	for i, p := range pre {
 		if inc[i] {
 			sb.WriteString(p)
 			sb.WriteString("\n")
 		}
+		if keys[i] == "str.empty" || keys[i] == "strempty" {
+			// string literals right after the string primitives: later prelude entries may mention them
+			for _, l := range litDecls {
+				sb.WriteString(l)
+				sb.WriteString("\n")
+			}
+			litsDone = true
+		}
 	}
-	for _, l := range litDecls {
-		sb.WriteString(l)
-		sb.WriteString("\n")
+	if !litsDone {
+		for _, l := range litDecls {
+			sb.WriteString(l)
+			sb.WriteString("\n")
+		}
 	}
 	sb.WriteString(rest)
 	sb.WriteString("(check-sat)\n")
@@ -233,6 +246,71 @@ func (vc *VC) Query(o *Obligation, wantModel bool) string {
 		sb.WriteString("(get-model)\n")
 	}
 	return sb.String()
+}
+
+var quotedRe = regexp.MustCompile(`\|[^|]*\|`)
+
+// pruneMemLines: backward slice of the body. Definitions and declarations are kept only
+// when (transitively) referenced from the goal or from a kept assertion; per-memory axioms
+// (well-formedness, frames, bulk definitions: "(assert (forall ((p Ptr)) ...") are kept only
+// when the memory version they constrain is referenced. Ordinary assertions are always kept.
+func pruneMemLines(lines []string, goal string) []string {
+	type info struct {
+		kind string // def, assert, memax
+		name string
+		syms []string
+	}
+	infos := make([]info, len(lines))
+	for i, l := range lines {
+		syms := quotedRe.FindAllString(l, -1)
+		switch {
+		case strings.HasPrefix(l, "(define-fun |") || strings.HasPrefix(l, "(declare-const |"):
+			if len(syms) > 0 {
+				infos[i] = info{kind: "def", name: syms[0], syms: syms[1:]}
+			} else {
+				infos[i] = info{kind: "assert", syms: syms}
+			}
+		case strings.HasPrefix(l, "(assert (forall ((p Ptr))") && len(syms) > 0 && (strings.HasPrefix(syms[0], "|M_") || strings.HasPrefix(syms[0], "|F_") || strings.HasPrefix(syms[0], "|MD_") || strings.HasPrefix(syms[0], "|MV_")):
+			infos[i] = info{kind: "memax", name: syms[0], syms: syms[1:]}
+		default:
+			infos[i] = info{kind: "assert", syms: syms}
+		}
+	}
+	needed := map[string]bool{}
+	for _, s := range quotedRe.FindAllString(goal, -1) {
+		needed[s] = true
+	}
+	keep := make([]bool, len(lines))
+	for changed := true; changed; {
+		changed = false
+		for i := len(lines) - 1; i >= 0; i-- {
+			if keep[i] {
+				continue
+			}
+			in := infos[i]
+			k := false
+			switch in.kind {
+			case "assert":
+				k = true
+			case "def", "memax":
+				k = needed[in.name]
+			}
+			if k {
+				keep[i] = true
+				changed = true
+				for _, s := range in.syms {
+					needed[s] = true
+				}
+			}
+		}
+	}
+	var out []string
+	for i, l := range lines {
+		if keep[i] {
+			out = append(out, l)
+		}
+	}
+	return out
 }
 
 var _ = types.Typ
